@@ -7,7 +7,8 @@ import os
 import vlib
 
 PROOFS = ["MgProof.C09.AvlLemmas", "MgProof.C09.AvlInsert", "MgProof.C09.AvlRemove",
-          "MgProof.C09.HashLemmas", "MgProof.C09.TrieLemmas", "MgProof.C09.Props"]
+          "MgProof.C09.HashLemmas", "MgProof.C09.TrieLemmas", "MgProof.C09.MapLemmas",
+          "MgProof.C09.Props"]
 GREP = ["MgModel/C09", "MgProof/C09", "MgModel/Common", "Drv/C09.lean"]
 REPO_SRCS = ["muggle/c/dsaa/avl_tree.c", "muggle/c/dsaa/hash_table.c", "muggle/c/dsaa/trie.c",
              "muggle/c/memory/memory_pool.c"]
